@@ -50,9 +50,9 @@ def check(run):
     run.trust('CPython ast', 'checker interpreter', 'sa/bocspec.py strict decoder / CRC-32C (boc.tlb, boc.cpp)')
     small_scope(run, prog, w, 5 if thorough else 3)
     dags = bocrun.dags(thorough)
-    big = {'tree341', 'heap255', 'heap256', 'heap257', 'tree85'}
+    big = {'tree341', 'heap255', 'heap256', 'heap257', 'tree85', 'payload70k'}
     for name, roots in dags.items():
-        opts = OPTS if (thorough or name not in big) else [OPTS[3]] if name != 'heap256' else [OPTS[0], OPTS[5]]
+        opts = OPTS if (thorough or name not in big) else [OPTS[3]] if name not in ('heap256', 'payload70k') else [OPTS[0], OPTS[5]]
         for opt in opts:
             tag = f'{name}[{opt_name(opt)}]'
             try:
